@@ -790,6 +790,7 @@ func checkC16(e *Engine, r *Report) {
 
 	// ================================================================== supply partition
 	checkSupplyPartition(e, r, getCpu, "R11:supply-partition@getCpuSupply")
+	checkPoolEnumeration(e, r)
 	checkConstraintsFreshness(e, r)
 	checkConstraintsRefusals(e, r)
 
@@ -1477,5 +1478,120 @@ func checkConstraintsRefusals(e *Engine, r *Report) {
 			return ok && e.maySucceed(ret)
 		}})
 		r.Check("R11:constraints-refuse#"+t.key, rule, t.what, e.InstrPos(first), fn, p == nil, e.pathString(p), true)
+	}
+}
+
+// checkPoolEnumeration: after the tree is built every pool in it gets its own id (a counter that is incremented per
+// visited pool) and is entered in the policy's list of pools — what scoring, ranking and grant restoration index by.
+func checkPoolEnumeration(e *Engine, r *Report) {
+	rule := "R6 pool construction agreement"
+	enum := r.Anchor(pkgTA, "policy.enumeratePools")
+	build := e.Fn(pkgTA, "policy.buildPoolsByTopology")
+	if enum == nil {
+		return
+	}
+	fID := e.Field(pkgTA, "node", "id")
+	fPools := e.Field(pkgTA, "policy", "pools")
+	var cb *ssa.Function
+	AllInstrs(enum, func(in ssa.Instruction) {
+		ci, ok := in.(ssa.CallInstruction)
+		if !ok || callObj(ci.Common()) == nil || callObj(ci.Common()).Name() != "DepthFirst" {
+			return
+		}
+		for _, a := range ci.Common().Args {
+			if mc, ok := a.(*ssa.MakeClosure); ok {
+				cb, _ = mc.Fn.(*ssa.Function)
+			}
+		}
+	})
+	if cb == nil || fID == nil || fPools == nil || len(cb.Params) != 1 {
+		r.Undecided("R6:pools-enumerated", rule, "enumeratePools walks the tree depth-first with a visitor closure", e.Pos(enum.Pos()), enum, "visitor not found")
+		return
+	}
+	nP := ssa.Value(cb.Params[0])
+	// the id stored is the current value of a captured counter, which is incremented in the same visit
+	var counter *ssa.Alloc
+	setsID := func(in ssa.Instruction) bool {
+		st, ok := in.(*ssa.Store)
+		if !ok || fieldOfAddr(st.Addr) != fID {
+			return false
+		}
+		u, ok := st.Val.(*ssa.UnOp)
+		if !ok || u.Op != token.MUL {
+			return false
+		}
+		al := cellOf(u.X)
+		if al == nil {
+			return false
+		}
+		// the node written is the visited one
+		base := st.Addr.(*ssa.FieldAddr).X
+		okBase := false
+		Origins(base, func(v ssa.Value) bool {
+			if ta, ok := v.(*ssa.TypeAssert); ok && sameObject(ta.X, nP) {
+				okBase = true
+			}
+			if sameObject(v, nP) {
+				okBase = true
+			}
+			return okBase
+		})
+		if okBase {
+			counter = al
+		}
+		return okBase
+	}
+	p := FindPath(PathQuery{Fn: cb, Target: isRet, Block: setsID})
+	r.Check("R6:pools-enumerated#id", rule, "every pool visited gets the current value of the id counter as its id", e.Pos(cb.Pos()), cb, p == nil, e.pathString(p), true)
+	increments := func(in ssa.Instruction) bool {
+		st, ok := in.(*ssa.Store)
+		if !ok || counter == nil || cellOf(st.Addr) != counter {
+			return false
+		}
+		b, ok := st.Val.(*ssa.BinOp)
+		return ok && b.Op == token.ADD && isConstInt(b.Y, 1)
+	}
+	p = FindPath(PathQuery{Fn: cb, Target: isRet, Block: increments})
+	r.Check("R6:pools-enumerated#unique", rule, "the id counter is incremented in every visit (ids are unique)", e.Pos(cb.Pos()), cb, counter != nil && p == nil, e.pathString(p), true)
+	listed := func(in ssa.Instruction) bool {
+		st, ok := in.(*ssa.Store)
+		if !ok || fieldOfAddr(st.Addr) != fPools {
+			return false
+		}
+		call, ok := st.Val.(*ssa.Call)
+		if !ok {
+			return false
+		}
+		bi, ok := call.Common().Value.(*ssa.Builtin)
+		if !ok || bi.Name() != "append" {
+			return false
+		}
+		for _, el := range sliceLiteralElems(call.Common().Args[1]) {
+			if sameObject(el, nP) {
+				return true
+			}
+		}
+		return false
+	}
+	p = FindPath(PathQuery{Fn: cb, Target: isRet, Block: listed})
+	r.Check("R6:pools-enumerated#listed", rule, "every pool visited is entered in the policy's list of pools", e.Pos(cb.Pos()), cb, p == nil, e.pathString(p), true)
+	if build != nil {
+		p = FindPath(PathQuery{Fn: build, Block: func(in ssa.Instruction) bool { return e.callOf(in, enum) }, Target: func(in ssa.Instruction) bool {
+			ret, ok := in.(*ssa.Return)
+			return ok && e.maySucceed(ret)
+		}})
+		r.Check("R6:pools-enumerated#after-build", rule, "a successfully built tree is enumerated", e.Pos(build.Pos()), build, p == nil, e.pathString(p), true)
+		for _, f := range []*types.Var{fPools, e.Field(pkgTA, "policy", "nodes")} {
+			if f == nil {
+				continue
+			}
+			f := f
+			resets := func(in ssa.Instruction) bool {
+				st, ok := in.(*ssa.Store)
+				return ok && fieldOfAddr(st.Addr) == f
+			}
+			p = FindPath(PathQuery{Fn: build, Block: resets, Target: func(in ssa.Instruction) bool { return e.callOf(in, enum) }})
+			r.Check("R6:pools-enumerated#fresh-"+f.Name(), rule, "the policy's "+f.Name()+" table is reset before the new tree is enumerated (no pool of a previous tree stays listed)", e.Pos(build.Pos()), build, p == nil, e.pathString(p), true)
+		}
 	}
 }
